@@ -87,6 +87,53 @@ def run(ck):
     if None in (S_START, S_END, S_NORMAL):
         return ck.broken('C12.e', 'state-enum', '', 'decoder state enumerators not found')
     SN = {S_START: 'START', S_END: 'SEARCH_END', S_NORMAL: 'NORMAL'}
+    # the two ways to set up a context agree: the static initialiser macros give the state rfc1055_context_init()
+    # establishes for the same flags (start-of-frame mode starts in SEARCH_FOR_START, classic mode in NORMAL)
+    SOFBIT = u.enums.get('RFC1055_WITH_SOF')
+    if SOFBIT is None:
+        try:
+            SOFBIT = front.probe_values(UNIT, ['RFC1055_WITH_SOF'])[0]
+        except Exception:
+            SOFBIT = None
+    if SOFBIT is None:
+        ck.broken('C12.e', 'context-init', 'include/ufw/rfc1055.h', 'RFC1055_WITH_SOF could not be evaluated')
+    try:
+        pu = cast.load(UNIT, source_text='#include <ufw/rfc1055.h>\nRFC1055Context vp_d = RFC1055_CONTEXT_INIT_DEFAULT;\n'
+                                         'RFC1055Context vp_s = RFC1055_CONTEXT_INIT_WITH_SOF;\n')
+        inits = {'RFC1055_CONTEXT_INIT_DEFAULT': cast.init_fields(pu, 'vp_d'), 'RFC1055_CONTEXT_INIT_WITH_SOF': cast.init_fields(pu, 'vp_s')}
+    except Exception as e:
+        inits = None
+        ck.broken('C12.e', 'context-init:macros', 'include/ufw/rfc1055.h', 'probe failed: %s' % e)
+    if inits and SOFBIT is not None:
+        ctor = {}
+        try:
+            for p in eng.paths('rfc1055_context_init'):
+                st_ = [e.args[0] for e in p.stores() if fmt(e.name).endswith('state')]
+                sof = None
+                for c in p.cond_terms():
+                    if c[0] == 'cmp' and c[2][0] == '&b' and sym.is_c(c[3]):
+                        sof = (c[1] == '==') == (c[3][1] != 0)
+                if st_ and sym.is_c(st_[-1]) and sof is not None:
+                    ctor[sof] = st_[-1][1]
+        except (sym.Unsupported, sym.PathLimit) as e:
+            ctor = {}
+        if set(ctor) != {True, False}:
+            ck.broken('C12.e', 'context-init', 'src/rfc1055.c', 'rfc1055_context_init not understood: %s' % ctor)
+        else:
+            okc = ctor == {True: S_START, False: S_NORMAL}
+            ck.verdict(okc, 'C12.e', 'context-init', cast.where(u.fn('rfc1055_context_init')),
+                       'start-of-frame mode starts in SEARCH_FOR_START, classic mode in NORMAL' if okc else
+                       'initial states: with SOF %s, without %s' % (SN.get(ctor[True], ctor[True]), SN.get(ctor[False], ctor[False])))
+            for mname, f in sorted(inits.items()):
+                if not f or f.get('flags') is None or f.get('state') is None:
+                    ck.broken('C12.e', 'context-init:' + mname, 'include/ufw/rfc1055.h', 'initialiser not understood: %s' % f)
+                    continue
+                sof = bool(f['flags'] & SOFBIT)
+                okm = f['state'] == ctor[sof] and (mname.endswith('WITH_SOF') == sof)
+                ck.verdict(okm, 'C12.e', 'context-init:' + mname, 'include/ufw/rfc1055.h',
+                           '%s = (state %s, flags %#x), as rfc1055_context_init sets it' % (mname, SN.get(f['state'], f['state']), f['flags']) if okm else
+                           '%s sets state %s with flags %#x; rfc1055_context_init starts that mode in %s: a context from the macro mis-reads the first frame'
+                           % (mname, SN.get(f['state'], f['state']), f['flags'], SN.get(ctor[sof], ctor[sof])))
     distinct_enums(ck, u, 'C12.e', ('RFC1055_SEARCH', 'RFC1055_NORMAL'), 'include/ufw/rfc1055.h') if False else None
     if len({S_START, S_END, S_NORMAL}) != 3:
         ck.violation('C12.e', 'state-enum', 'include/ufw/rfc1055.h', 'decoder states share a value: %s' % {k: v for k, v in st_enum.items()})
